@@ -41,6 +41,10 @@ CFGS = {
                                       "-DMIR_MAX_CALLER_SIZE_FOR_ANY_GROWTH_INLINE=1500"]},
 }
 
+# C17: library objects whose direct references to libc's memory functions are renamed to vp_lib_* (defined by the harness)
+CFGS["alloc"] = {"cc": "gcc", "flags": ["-O2", "-g1", "-DNDEBUG", "-fno-builtin-malloc", "-fno-builtin-free", "-fno-builtin-calloc", "-fno-builtin-realloc", "-fno-builtin-strdup"],
+                 "redefine": ["malloc", "calloc", "realloc", "free", "strdup", "mmap", "munmap", "mprotect"]}
+
 LIB_TUS = ["mir.c", "mir-gen.c", "c2mir/c2mir.c"]
 
 _hash_cache = {}
@@ -143,10 +147,15 @@ def build_lib(cfg, repo=None, extra_tus=()):
         lib = os.path.join(d, "libmir.a")
         if os.path.exists(lib):
             os.unlink(lib)
+        red = CFGS[cfg].get("redefine")
+        if red:
+            for o in objs:
+                _run(["objcopy"] + sum([["--redefine-sym", "%s=vp_lib_%s" % (x, x)] for x in red], []) + [o])
         _run(["ar", "rcs", lib] + objs)
         # c2m driver
-        _run([cc] + flags + ["-I", repo, os.path.join(repo, "c2mir/c2mir-driver.c"), lib, "-lm", "-ldl",
-                             "-lpthread", "-o", os.path.join(d, "c2m")])
+        if not red:
+            _run([cc] + flags + ["-I", repo, os.path.join(repo, "c2mir/c2mir-driver.c"), lib, "-lm", "-ldl",
+                                 "-lpthread", "-o", os.path.join(d, "c2m")])
         open(stamp, "w").write(time.ctime())
         return d
     finally:
